@@ -44,11 +44,7 @@ DoubleLongUnsigned = construct.Int32ub
 
 VisibleString = construct.PascalString(construct.Int8ub, "ASCII")
 
-OctedStringText = construct.FocusedSeq(
-    "value",
-    "length" / construct.Int8ub,
-    "value" / construct.PaddedString(construct.this.length, "ASCII"),
-)
+OctedStringText = construct.PascalString(construct.Int8ub, "ASCII")
 
 ObisCode = construct.ExprAdapter(
     construct.Int8ub[6],
